@@ -90,3 +90,27 @@ Definition sp_nodes := Eval vm_compute in collect gen_env sp_docs "/" 300 (schem
 Definition sp_bad0 := Eval vm_compute in def_keys sp_members.
 Definition sp_ranks := Eval vm_compute in ranks_of gen_env sp_docs "/" sp_enodes.
 Definition sp_live := Some (sp_root_url, sp_root).
+
+(* the same specification without the back edges: A refers to a leaf, B to A *)
+Definition sa_root : json := Eval vm_compute in nf "Swagger" (pj
+ "{""swagger"":""2.0"",""info"":{""title"":""t"",""version"":""1""},
+   ""definitions"":{""A"":{""type"":""object"",""properties"":{""l"":{""$ref"":""#/definitions/L""},""o"":{""$ref"":""sub/o.json#/definitions/C""}}},""L"":{""type"":""string""}},
+   ""parameters"":{""P"":{""$ref"":""sub/o.json#/parameters/Q""},""L"":{""name"":""l"",""in"":""body"",""schema"":{""$ref"":""#/definitions/A""}}},
+   ""responses"":{""R"":{""description"":""r"",""schema"":{""$ref"":""#/definitions/A""}}},
+   ""paths"":{""/x"":{""parameters"":[{""$ref"":""#/parameters/P""}],
+                      ""get"":{""parameters"":[{""name"":""b"",""in"":""body"",""schema"":{""$ref"":""sub/o.json#/definitions/B""}},{""$ref"":""#/parameters/L""}],
+                               ""responses"":{""200"":{""$ref"":""#/responses/R""},""default"":{""description"":""d""},""x-ext"":{""a"":1}}}},
+              ""/y"":{""$ref"":""sub/o.json#/paths/~1z""}}}").
+Definition sa_other : json := Eval vm_compute in nf "Swagger" (pj
+ "{""swagger"":""2.0"",""info"":{""title"":""o"",""version"":""1""},
+   ""definitions"":{""B"":{""type"":""array"",""items"":{""$ref"":""../root.json#/definitions/A""}},""C"":{""type"":""integer""}},
+   ""parameters"":{""Q"":{""$ref"":""#/parameters/Q2""},""Q2"":{""name"":""q"",""in"":""query"",""type"":""string""}},
+   ""paths"":{""/z"":{""post"":{""parameters"":[{""$ref"":""#/parameters/Q""}],""responses"":{""200"":{""description"":""ok"",""schema"":{""$ref"":""#/definitions/B""}}}}}}}").
+Definition sa_docs := [(sp_root_url, sa_root); (sp_other_url, sa_other)].
+Definition sa_members : list (string * json) := match sa_root with JObj m => m | _ => [] end.
+Definition sa_enodes := Eval vm_compute in collect_e gen_env sa_docs "/" 200 (root_items sp_root_url sa_members) [].
+Definition sa_nodes := Eval vm_compute in
+  topo gen_env sa_docs "/" 60 (collect gen_env sa_docs "/" 300 (schema_starts sp_root_url sa_members sa_enodes) []) [].
+Definition sa_bad0 := Eval vm_compute in def_keys sa_members.
+Definition sa_ranks := Eval vm_compute in ranks_of gen_env sa_docs "/" sa_enodes.
+Definition sa_live := Some (sp_root_url, sa_root).
